@@ -7573,6 +7573,20 @@ mod tests {
     }
 }
 
+impl<K, U, V, const D: usize> DelaunayTriangulation<K, U, V, D>
+where
+    K: Kernel<D>,
+    U: DataType,
+    V: DataType,
+{
+    /// Drops the caches that mirror the vertex set (duplicate-detection grid, locate hint) after
+    /// an edit that changed the vertex set without going through `insert`.
+    pub(crate) fn invalidate_vertex_caches(&mut self) {
+        self.insertion_state.last_inserted_cell = None;
+        self.spatial_index = None;
+    }
+}
+
 // ---- verif hook H2 (cfg delaunay_verif): raw access for fault injection; not compiled otherwise ----
 #[cfg(delaunay_verif)]
 impl<K, U, V, const D: usize> DelaunayTriangulation<K, U, V, D>
